@@ -1,12 +1,334 @@
-// Package c05 decides C05 (see /verif/DESIGN.md §7).
+// Package c05 decides C05: a full node recovers from a crash at any point of block application.
 package c05
 
-import "verifharness/vk"
+import (
+	"context"
+	"fmt"
+	"math/rand"
+	"strings"
+	"sync"
+
+	"verifharness/monitors"
+	"verifharness/vk"
+	"verifharness/world"
+)
 
 // Level is the verification level claimed for this property.
-const Level = "exploration"
+const Level = "fault_enumeration"
+
+// Case is one enumerated crash scenario.
+type Case struct {
+	Shape    string `json:"chain_shape"`
+	Mode     string `json:"delivery"` // inorder | cascade
+	Block    int    `json:"crash_while_applying_block_index"`
+	K        []int  `json:"crash_after_writes"`
+	Redeliv  string `json:"redelivery"` // rest | all | shuffled
+	OrderSeed int64 `json:"order_seed"`
+}
+
+func (c Case) key() string {
+	return fmt.Sprintf("%s %s b%d %v %s %d", c.Shape, c.Mode, c.Block, c.K, c.Redeliv, c.OrderSeed)
+}
+
+func buildSpec(shape, tag string) world.ChainSpec {
+	spec := world.ChainSpec{Initial: 1}
+	for i, c := range shape {
+		if c == 'e' {
+			spec.Blocks = append(spec.Blocks, nil)
+			continue
+		}
+		spec.Blocks = append(spec.Blocks, [][]byte{[]byte(fmt.Sprintf("%s-b%d-t0", tag, i)), []byte(fmt.Sprintf("%s-b%d-t1", tag, i))})
+	}
+	return spec
+}
+
+// deliver sends both parts of block index i through the event channels and returns the barrier error.
+func deliver(f *world.FN, i int, headerFirst bool) error {
+	acts := []world.Action{{Kind: "ch-h", I: i}}
+	if len(f.P.Txs[i]) > 0 {
+		if headerFirst {
+			acts = append(acts, world.Action{Kind: "ch-d", I: i})
+		} else {
+			acts = append([]world.Action{{Kind: "ch-d", I: i}}, acts...)
+		}
+	}
+	for _, a := range acts {
+		if err := f.Do(a); err != nil {
+			return err
+		}
+	}
+	return nil
+}
+
+// runCase returns, per stage, whether the crash point was reached.
+func runCase(r *vk.Run, p *world.Produced, c Case) []bool {
+	ctx := context.Background()
+	crashed := make([]bool, len(c.K))
+	f, err := world.NewFN(ctx, p, "")
+	if err != nil {
+		r.Violation("startup", err.Error(), c)
+		return nil
+	}
+	defer func() { f.L.Stop() }()
+	wit := func() any {
+		var logs [][]string
+		for _, l := range f.Logs {
+			logs = append(logs, world.FormatLog(l))
+		}
+		logs = append(logs, world.FormatLog(f.N.DS.Log()))
+		return map[string]any{"case": c, "write_logs_per_process": logs}
+	}
+	fail := func(clause, detail string) {
+		id := "C05-state-before-block"
+		if r.IsKnown(id) && (strings.Contains(detail, "block-present") || strings.Contains(detail, "not retrievable")) {
+			r.Finding(id, clause, detail, wit())
+			return
+		}
+		r.Violation(clause, detail, wit())
+	}
+	n := len(p.Heights)
+	// stage 0: deliver up to the block under test, crash while applying it
+	next := 0 // next block index to deliver in order
+	stageDeliver := func(stage int) bool {
+		// returns false when the run must stop (violation)
+		target := c.Block + stage
+		if target >= n {
+			target = n - 1
+		}
+		if c.Mode == "cascade" && stage == 0 {
+			// everything except the header of block `next` is delivered first: nothing can be applied
+			for i := n - 1; i > next; i-- {
+				if err := deliver(f, i, i%2 == 0); err != nil {
+					fail("delivery", "clean delivery failed: "+err.Error())
+					return false
+				}
+			}
+			if len(p.Txs[next]) > 0 {
+				if err := f.Do(world.Action{Kind: "ch-d", I: next}); err != nil {
+					fail("delivery", "clean delivery failed: "+err.Error())
+					return false
+				}
+			}
+			f.N.DS.CrashAfter(c.K[stage])
+			err := f.Do(world.Action{Kind: "ch-h", I: next})
+			crashed[stage] = f.N.DS.Crashed()
+			if err != nil && !crashed[stage] {
+				fail("delivery", "delivery failed without a crash: "+err.Error())
+				return false
+			}
+			return true
+		}
+		for ; next < target; next++ {
+			if err := deliver(f, next, next%2 == 0); err != nil {
+				fail("delivery", "clean delivery failed: "+err.Error())
+				return false
+			}
+		}
+		f.N.DS.CrashAfter(c.K[stage])
+		err := deliver(f, target, true)
+		crashed[stage] = f.N.DS.Crashed()
+		if err != nil && !crashed[stage] {
+			fail("delivery", "delivery failed without a crash: "+err.Error())
+			return false
+		}
+		return true
+	}
+	for stage := range c.K {
+		if !stageDeliver(stage) {
+			return crashed
+		}
+		// the process dies here (or, if the crash point was not reached, is killed right after the step)
+		if err := f.Restart(false); err != nil {
+			if err == world.ErrWatchdog {
+				r.Inconclusive("watchdog while stopping loops")
+				return crashed
+			}
+			fail("restart", "full node cannot start on the image left by the crash: "+err.Error())
+			return crashed
+		}
+		r.Hit("restart-ok")
+		// after a crash the in-memory caches are gone: what was delivered but not applied must come again
+		h, _ := f.N.Store.Height(ctx)
+		for i := range f.GotH {
+			if p.Heights[i] > h {
+				f.GotH[i], f.GotD[i] = false, false
+			}
+		}
+		next = 0
+		if h >= p.Spec.Initial {
+			next = p.Idx(h) + 1
+		}
+		// invariant right after restart
+		if _, probs := monitors.CheckFullNode(ctx, f, 0, false, r.Hit); len(probs) > 0 {
+			var s []string
+			for _, pr := range probs {
+				s = append(s, pr.String())
+			}
+			fail("after-restart", "right after restart: "+strings.Join(s, " ;; "))
+			return crashed
+		}
+	}
+	// redelivery of the remaining parts (or of everything) in a generated order, half through DA
+	rng := rand.New(rand.NewSource(c.OrderSeed))
+	var acts []world.Action
+	from := 0
+	if c.Redeliv == "rest" {
+		from = next
+	}
+	for i := from; i < n; i++ {
+		acts = append(acts, world.Action{Kind: "ch-h", I: i})
+		if len(p.Txs[i]) > 0 {
+			acts = append(acts, world.Action{Kind: "ch-d", I: i})
+		}
+	}
+	if c.Redeliv == "shuffled" {
+		rng.Shuffle(len(acts), func(a, b int) { acts[a], acts[b] = acts[b], acts[a] })
+	}
+	var prev uint64
+	for _, a := range acts {
+		if err := f.Do(a); err != nil {
+			if err == world.ErrWatchdog {
+				r.Inconclusive("watchdog during redelivery")
+				return crashed
+			}
+			fail("resync", fmt.Sprintf("after restart, delivering %s: %v", a, err))
+			return crashed
+		}
+		h, probs := monitors.CheckFullNode(ctx, f, prev, false, r.Hit)
+		prev = h
+		if len(probs) > 0 {
+			fail(probs[0].Clause, fmt.Sprintf("after restart, after %s: %s", a, probs[0]))
+			return crashed
+		}
+	}
+	// the DA layer holds the complete chain: the DA-included height must reach the tip
+	var items []world.Item
+	for i := 0; i < n; i++ {
+		items = append(items, world.Item{I: i})
+		if len(p.Txs[i]) > 0 {
+			items = append(items, world.Item{D: true, I: i})
+		}
+	}
+	for len(items) > 0 {
+		k := 3
+		if k > len(items) {
+			k = len(items)
+		}
+		if err := f.Do(world.Action{Kind: "da", DA: items[:k]}); err != nil {
+			fail("resync", "DA delivery after restart: "+err.Error())
+			return crashed
+		}
+		items = items[k:]
+	}
+	if err := f.Settle(); err != nil {
+		if err == world.ErrWatchdog {
+			r.Inconclusive("watchdog at settle")
+			return crashed
+		}
+		fail("resync", "settle: "+err.Error())
+		return crashed
+	}
+	_, probs := monitors.CheckFullNode(ctx, f, prev, true, r.Hit)
+	var viol []string
+	for _, pr := range probs {
+		viol = append(viol, pr.String())
+	}
+	r.Hit("da-included-reaches-tip")
+	if d := f.N.M.GetDAIncludedHeight(); d != p.Tip() && len(viol) == 0 {
+		viol = append(viol, fmt.Sprintf("da-included: all blobs are on DA and scanned, chain height is %d, DA-included height is %d", p.Tip(), d))
+	}
+	_ = f.Stop()
+	for _, pr := range monitors.CheckHeightWritesAcross(f.Logs, r.Hit) {
+		viol = append(viol, pr.String())
+	}
+	if len(viol) > 0 {
+		fail("after-recovery", strings.Join(viol, " ;; "))
+	}
+	return crashed
+}
 
 // Run is the check entry point.
 func Run(r *vk.Run) {
-	r.Rule = "not implemented yet"
+	world.Silence()
+	r.Rule = "exhaustive enumeration: chain shape x delivery mode (in order | everything cached, then the missing first header applies all blocks in one cascade) x block being applied x crash after durable write k = 0..W (W found by running until the step completes) x second crash k2 during re-application after the restart (depth 2) x redelivery (remaining parts in order | everything again | everything shuffled), then the complete chain placed on DA; W2 after every event, DA-included height must reach the tip. non-trivial = a crash point strictly inside an application; distinct by (shape, mode, block, k, k2, redelivery)"
+	r.Assume("MemDS double: Put/Batch.Commit atomic and durable once returned; a crash loses in-memory caches (no cache files written)")
+	r.Assume("the P2P/DA layers still have the data after the crash (redelivery is possible)")
+	ctx := context.Background()
+	keys := world.NewKeys("proposer")
+	shapes := []string{"xx", "ex", "xe"}
+	if !r.Quick() {
+		shapes = []string{"xx", "ex", "xe", "xxx", "eex", "xee", "xexx"}
+	}
+	type tuple struct {
+		p     *world.Produced
+		shape string
+		mode  string
+		block int
+		red   string
+	}
+	var tuples []tuple
+	for si, shape := range shapes {
+		p, err := world.ProduceChain(ctx, buildSpec(shape, fmt.Sprintf("s%d", si)), keys)
+		if err != nil {
+			r.Violation("producer", err.Error(), nil)
+			return
+		}
+		for _, mode := range []string{"inorder", "cascade"} {
+			blocks := len(p.Heights)
+			if mode == "cascade" {
+				blocks = 1
+			}
+			for b := 0; b < blocks; b++ {
+				for _, red := range []string{"rest", "all", "shuffled"} {
+					tuples = append(tuples, tuple{p, shape, mode, b, red})
+				}
+			}
+		}
+	}
+	depth := 2
+	var enum func(p *world.Produced, base Case, d int) []bool
+	enum = func(p *world.Produced, base Case, d int) []bool {
+		var last []bool
+		for k := 0; k < 80; k++ {
+			c := base
+			c.K = append(append([]int{}, base.K...), k)
+			var crashed []bool
+			if d == depth-1 {
+				c.OrderSeed = int64(len(c.K)*1000+k) + r.SeedV*7919
+				crashed = runCase(r, p, c)
+				inside := false
+				for _, b := range crashed {
+					inside = inside || b
+				}
+				r.Eval(c.key(), inside, c)
+			} else {
+				crashed = enum(p, c, d+1)
+			}
+			last = crashed
+			if crashed == nil || !crashed[d] {
+				break
+			}
+		}
+		return last
+	}
+	var wg sync.WaitGroup
+	ch := make(chan tuple)
+	for w := 0; w < 14; w++ {
+		wg.Add(1)
+		go func() {
+			defer wg.Done()
+			for t := range ch {
+				enum(t.p, Case{Shape: t.shape, Mode: t.mode, Block: t.block, Redeliv: t.red}, 0)
+			}
+		}()
+	}
+	for _, t := range tuples {
+		ch <- t
+	}
+	close(ch)
+	wg.Wait()
+	r.SetExhaustive(true)
+	r.Set("enumerated_tuples", len(tuples))
+	r.Require("restart-ok", 100)
+	r.Require("da-included-reaches-tip", 50)
 }
